@@ -173,6 +173,29 @@ def register(ex):
     def x_memset(st, a, nm): mem_set(ex, st, a[0], a[1], a[2]); return a[0]
     X['memset'] = x_memset
 
+    # wide-character copies (std::char_traits<wchar_t>): 4-byte units
+    def x_wmemcpy(st, a, nm):
+        n = conc_len(ex, st, a[2], nm)
+        mem_copy(ex, st, a[0], a[1], 4 * n, nm != 'wmemcpy'); return a[0]
+    X['wmemcpy'] = x_wmemcpy; X['wmemmove'] = x_wmemcpy
+
+    def x_mbsinit(st, a, nm):
+        # glibc: the conversion state is initial iff ps == NULL or ps->__count == 0
+        p = a[0]
+        if isinstance(p, Ptr) and p.obj == 0 and not is_sym(p.off) and p.off == 0: return 1
+        c = ex.need(st, ex.load(st, IntT(32), p), 'mbsinit')
+        if is_sym(c): return simp(z3.If(c == 0, z3.BitVecVal(1, 32), z3.BitVecVal(0, 32)))
+        return 1 if c == 0 else 0
+    X['mbsinit'] = x_mbsinit
+
+    def x_wmemset(st, a, nm):
+        n = conc_len(ex, st, a[2], 'wmemset')
+        if n:
+            do, doff = ex.obj_of(st, a[0], 4 * n, 'wmemset', True)
+            do.cells[doff:doff + 4 * n] = ex.explode(IntT(32), a[1], 4) * n
+        return a[0]
+    X['wmemset'] = x_wmemset
+
     def x_memcmp(st, a, nm):
         n = conc_len(ex, st, a[2], 'memcmp')
         if n == 0: return 0
